@@ -407,7 +407,8 @@ def tdvp_singlesite_contract():
                 ('no_bond_dimension_exceeds_the_input', le_input(psi)),
                 ('hamiltonian_shapes_untouched', z3.BoolVal(env['H'] is H)),
                 ('returns_the_norm_of_the_input_state', z3.BoolVal(ret is env.get('#nrm')))]
-    return dict(fn=fn, env={'H': H, 'psi': psi0, 'dt': ZScal(), 'numsteps': numsteps, 'numiter_lanczos': 25}, pre=pre, inv=inv, carried=['psi', 'BL', 'BR'], post=post,
+    numiter = z3.Int('numiter_lanczos'); pre = pre + [numiter >= 1]
+    return dict(fn=fn, env={'H': H, 'psi': psi0, 'dt': ZScal(), 'numsteps': numsteps, 'numiter_lanczos': numiter}, pre=pre, inv=inv, carried=['psi', 'BL', 'BR'], post=post,
                 skip_asserts=['is_qsparse(BR[i], [psi.qD[i + 1], H.qD[i + 1], -psi.qD[i + 1]])'])
 
 
